@@ -223,7 +223,10 @@ def check_bound_plumb(ctx, R):
             if status == 'raise':
                 continue
             node = rets[-1].x.get('node') if rets else None
-            if not (isinstance(node, ast.Call) and _call_name(node) == 'put' and self_field(node.func.value) == f):
+            direct = isinstance(node, ast.Call) and _call_name(node) == 'put' and self_field(node.func.value) == f
+            via_local = bool(rets) and isinstance(node, ast.Name) and any(
+                t.startswith('put:%s@' % f) for t in (rets[-1].b or ()))
+            if not (direct or via_local):
                 bad = st.events
         R.ob('BOUND-PLUMB', con, 'update-returns-put', bad is None,
              'buffer.update does not return the bounded queue\'s put() future on every path',
